@@ -4,7 +4,10 @@ use serde::ser::SerializeStruct;
 use serde::{Deserialize, Deserializer, Serialize, Serializer};
 use std::fmt;
 use std::str::FromStr;
+#[cfg(not(feature = "verif"))]
 use std::sync::atomic::{AtomicU64, AtomicUsize, Ordering};
+#[cfg(feature = "verif")]
+use crate::verif::atomic::{AtomicU64, AtomicUsize, Ordering};
 use std::time::{SystemTime, UNIX_EPOCH};
 
 /// Tracks performance statistics for a price level
@@ -38,10 +41,13 @@ pub struct PriceLevelStatistics {
 impl PriceLevelStatistics {
     /// Create new empty statistics
     pub fn new() -> Self {
+        #[cfg(not(feature = "verif"))]
         let current_time = std::time::SystemTime::now()
             .duration_since(std::time::UNIX_EPOCH)
             .unwrap_or_default()
             .as_millis() as u64;
+        #[cfg(feature = "verif")]
+        let current_time = crate::verif::now_millis();
 
         Self {
             orders_added: AtomicUsize::new(0),
@@ -67,10 +73,13 @@ impl PriceLevelStatistics {
 
     /// Record an order execution
     pub fn record_execution(&self, quantity: u64, price: u64, order_timestamp: u64) {
+        #[cfg(not(feature = "verif"))]
         let current_time = std::time::SystemTime::now()
             .duration_since(std::time::UNIX_EPOCH)
             .unwrap_or_default()
             .as_millis() as u64;
+        #[cfg(feature = "verif")]
+        let current_time = crate::verif::now_millis();
 
         self.orders_executed.fetch_add(1, Ordering::Relaxed);
         self.quantity_executed
@@ -143,10 +152,13 @@ impl PriceLevelStatistics {
         if last == 0 {
             None
         } else {
+            #[cfg(not(feature = "verif"))]
             let current_time = SystemTime::now()
                 .duration_since(UNIX_EPOCH)
                 .expect("Time went backwards")
                 .as_millis() as u64;
+            #[cfg(feature = "verif")]
+            let current_time = crate::verif::now_millis();
 
             Some(current_time.saturating_sub(last))
         }
@@ -154,10 +166,13 @@ impl PriceLevelStatistics {
 
     /// Reset all statistics
     pub fn reset(&self) {
+        #[cfg(not(feature = "verif"))]
         let current_time = SystemTime::now()
             .duration_since(UNIX_EPOCH)
             .expect("Time went backwards")
             .as_millis() as u64;
+        #[cfg(feature = "verif")]
+        let current_time = crate::verif::now_millis();
 
         self.orders_added.store(0, Ordering::Relaxed);
         self.orders_removed.store(0, Ordering::Relaxed);
@@ -452,6 +467,12 @@ impl<'de> Deserialize<'de> for PriceLevelStatistics {
                 let last_execution_time = last_execution_time.unwrap_or(0);
 
                 let first_arrival_time = first_arrival_time.unwrap_or_else(|| {
+                    #[cfg(feature = "verif")]
+                    {
+                        if crate::verif::installed() {
+                            return crate::verif::now_millis();
+                        }
+                    }
                     SystemTime::now()
                         .duration_since(UNIX_EPOCH)
                         .unwrap_or_default()
